@@ -265,6 +265,7 @@ func immutableHistory(run *evid.Run, h int, wrapper bool) {
 		reg = ocimem.NewWithConfig(&ocimem.Config{ImmutableTags: true})
 	}
 	env := model.NewEnv(reg)
+	env.Scribble = true // the caller reuses every buffer it handed in: stored bytes must not follow
 	mo := &monitor{run: run, what: what, env: env, tags: map[string]obsTag{}, present: map[string][]byte{}, protect: map[string][]byte{}}
 	opts := model.GenOpts{Uploads: true, BadNames: h%4 == 0, BadRange: false}
 	run.Eval(1)
